@@ -137,11 +137,11 @@ RHessTimesK(p, x, v, i) ==
             (Fix(Psi20N(p, x[i], x[n[1]]), Cube(RD(p, x[i], x[n[1]])), KH) * v[i] + Fix(Psi11N(p, x[i], x[n[1]]), Cube(RD(p, x[i], x[n[1]])), KH) * v[n[1]]))
 \* weight of the floor errors: every term is below its exact value by less than one unit times its coefficient
 WeightSum(p, i) == p.beta * SumS({ n \in Nb(p, i) : n[1] # i }, LAMBDA n : n[2] * KK(p, i, n[1]))
-\* single-precision evaluation in the implementation: relative 2^-18 (generous) plus quantisation
-RelSlack(o) == Abs(o) \div 262144 + 2
-\* observation o (round(v 2^k)) agrees with a fixed-point sum s whose exact value lies in [s, s + wsum]
-AgreesFix(o, s, wsum) == /\ o >= s - RelSlack(o)
-                         /\ o <= s + wsum + RelSlack(o)
+\* single-precision evaluation in the implementation (pow, sums of up to 124 single-precision terms):
+\* relative 2^-16 of the sum of the absolute values of the terms, plus quantisation
+Slack(abssum) == abssum \div 65536 + 2
+\* observation o (round(v 2^k)) agrees with a fixed-point sum whose exact value lies in [lo, hi]
+Within(o, lo, hi, abssum) == o >= lo - Slack(abssum) /\ o <= hi + Slack(abssum)
 
 \* --- theorems about the potential (MC_Priors): the derivative formulas are bracketed by unit
 \* differences of the function they claim to differentiate (psi is convex in a for a, b >= 0;
@@ -174,13 +174,16 @@ RPairPSD(p, a, b) == Psi20N(p, a, b) >= 0 /\ Psi20N(p, a, b) * Psi20N(p, b, a) -
 \* single-precision results and of the two quantisations
 ScaleAgrees(a, b, num, den) == Abs(den * b - num * a) <= num + den + (num * Abs(a) + den * Abs(b)) \div 1048576
 
-\* bound on the potential per unit weight on the domain of the recorded images (values in [0, 4])
+\* bound on the potential per unit weight on the domain of the recorded images (values in [0, 4];
+\* quadratic t^2/4 <= 4, RDP t^2/(2D) <= 2, log-cosh log(cosh(s t))/(2 s^2) <= |t|/(2s) <= 4 for s >= 1/2)
 PMax == 4
 \* finite differences of the value: only the terms that involve the changed voxel differ, their total
-\* weight is at most 2 wsum kmax^2 beta; each is evaluated in single precision (4 ulp allowed)
-\* in units of 2^-kv
+\* weight is at most 2 wsum kmax^2 beta; each is evaluated in single precision (4 ulp allowed).
+\* PLS: four penalty terms change; each is a single-precision square root of a difference of squares of
+\* magnitude <= 64 (absolute error <= 2^-14 allowed per unit kappa and beta, four terms).
+\* In units of 2^-kv.
 FDVTol(c, kv) ==
-  LET cst == PMax * c.betaCeil * c.wsum * c.kmax2 IN
+  LET cst == IF c.prior = "pls" THEN 256 * c.betaCeil * c.kmax2 ELSE PMax * c.betaCeil * c.wsum * c.kmax2 IN
   3 + (IF kv >= 20 THEN cst * 2^(kv - 20) ELSE cst \div 2^(20 - kv) + 1)
 \* convexity along e_i: h g_i(x) <= V(x + h e_i) - V(x) <= h g_i(x + h e_i)
 FDVBracket(c, r) ==
@@ -192,7 +195,7 @@ FDVBracket(c, r) ==
 \* finite differences of the gradient against Hessian entries (units 2^-kg; kh = kg - hk so that
 \* h * H is in the same units): the change of g_j lies between h H_ji at the two end points where H_ji
 \* is monotone along the segment
-FDGTol(g0, g1, h0, h1) == 3 + (Abs(g0) + Abs(g1)) \div 1048576 + (Abs(h0) + Abs(h1)) \div 262144
+FDGTol(g0, g1, h0, h1) == 3 + (Abs(g0) + Abs(g1)) \div 1048576 + (Abs(h0) + Abs(h1)) \div 65536
 FDGBracket(g0, g1, h0, h1) ==
   /\ g1 - g0 >= Min2(h0, h1) - FDGTol(g0, g1, h0, h1)
   /\ g1 - g0 <= Max2(h0, h1) + FDGTol(g0, g1, h0, h1)
